@@ -131,6 +131,7 @@ func runCheck(w *World, prop string, timeoutS int, confirm bool, known *KnownFil
 			jobs = append(jobs, job{rel, c})
 		}
 	}
+	loopMisfit := map[string]string{}
 	type implJob struct {
 		rel string
 		c   *Contract
@@ -188,8 +189,9 @@ func runCheck(w *World, prop string, timeoutS int, confirm bool, known *KnownFil
 		}
 		// loop ordinals named in the contract must exist
 		for n := range j.c.Loops {
-			if n > rep.Loops {
+			if n > rep.Loops && !rep.InheritedLoops[fmt.Sprintf("%s:%d", j.c.Key, n)] {
 				res.ToolErrors = append(res.ToolErrors, fmt.Sprintf("contract-mismatch: %s has %d loops, contract names loop %d", rep.Func, rep.Loops, n))
+				loopMisfit[rep.Func] = fmt.Sprintf("contract names loop %d, function has %d", n, rep.Loops)
 			}
 		}
 		var keep []*Obligation
@@ -236,6 +238,22 @@ func runCheck(w *World, prop string, timeoutS int, confirm bool, known *KnownFil
 			}
 		}
 	}
+	// functions whose contract does not fit the code under check (a clause
+	// names a variable, loop or call the function no longer has; a loop has no
+	// invariant): whatever fails there is undecided, not a violation
+	misfit := loopMisfit
+	for _, rep := range res.Reports {
+		for _, e := range rep.Errors {
+			// errors that are not tied to one path: an anchor no path reaches, an
+			// internal error of the generator
+			if strings.Contains(e, "never reached") || strings.Contains(e, "internal") || strings.Contains(e, "inline depth") || strings.Contains(e, "recursive inlining") {
+				misfit[rep.Func] = e
+			}
+		}
+		if len(rep.NoInvLoops) > 0 {
+			res.ToolErrors = append(res.ToolErrors, "contract-mismatch: "+rep.Func+": no loop contract for "+strings.Join(rep.NoInvLoops, ", "))
+		}
+	}
 	kn := map[string]KnownFinding{}
 	for _, k := range known.Findings {
 		kn[k.Obligation] = k
@@ -274,6 +292,24 @@ func runCheck(w *World, prop string, timeoutS int, confirm bool, known *KnownFil
 		}
 		if s.Kind == "frame" || s.Kind == "loop.frame" {
 			res.ToolErrors = append(res.ToolErrors, fmt.Sprintf("contract-mismatch: %s is not discharged (the function changes state outside its modifies clause, or the clause can no longer be proved)", s.Name))
+			continue
+		}
+		why, bad := misfit[strings.SplitN(s.Name, "#", 2)[0]]
+		if !bad {
+			// every failing instance lies on a path where some clause of the
+			// contract could not be applied (no loop contract, a clause naming a
+			// variable that is gone): nothing is decided on such a path
+			bad = true
+			for _, f := range s.Failed {
+				if f.Taint == "" {
+					bad = false
+				} else {
+					why = f.Taint
+				}
+			}
+		}
+		if bad {
+			res.ToolErrors = append(res.ToolErrors, fmt.Sprintf("not decided: %s is not discharged, but the contract of that function does not fit the code under check (%s); update the contract first", s.Name, why))
 			continue
 		}
 		res.Violations = append(res.Violations, s)
